@@ -113,22 +113,28 @@ func (v *collator_[V]) GetMaximum() int {
 // Public
 
 func (v *collator_[V]) CompareValues(first V, second V) bool {
-	// A traversal that panics must not leave its depth behind.
-	defer v.resetDepth()
-	return v.compareValues(ref.ValueOf(first), ref.ValueOf(second))
+	// A collator may be shared: a set hands its collator to the sets that And,
+	// Or, Sans and Xor return, and every sorter made with the class's default
+	// ranker uses the same one.  Each traversal therefore keeps its depth in a
+	// copy of its own, which also means that a traversal that panics leaves
+	// nothing behind.
+	var traversal = v.newTraversal()
+	return traversal.compareValues(ref.ValueOf(first), ref.ValueOf(second))
 }
 
 func (v *collator_[V]) RankValues(first V, second V) Rank {
-	// A traversal that panics must not leave its depth behind.
-	defer v.resetDepth()
-	return v.rankValues(ref.ValueOf(first), ref.ValueOf(second))
+	// See CompareValues().
+	var traversal = v.newTraversal()
+	return traversal.rankValues(ref.ValueOf(first), ref.ValueOf(second))
 }
 
 // Private
 
-func (v *collator_[V]) resetDepth() {
-	v.depth_ = 0
-	v.getters_ = 0
+func (v *collator_[V]) newTraversal() *collator_[V] {
+	return &collator_[V]{
+		class_:   v.class_,
+		maximum_: v.maximum_,
+	}
 }
 
 func (v *collator_[V]) enterGetters() {
